@@ -24,6 +24,8 @@ def inputs_for(bpt, tier):
     e = err_len(bpt)
     scale = max(1, round(bpt / 2.5)) if bpt > 100 else 1
     lens = [1, e, 2 * e + 1, 8 * e + 4] if tier == "thorough" else [1, e, 8 * e + 4]
+    if tier == "thorough" and bpt in (4.0,):
+        lens = [1, e, 8 * e + 4]
     out = []
     seps = SEPS if tier == "thorough" else SEPS[:2]
     for style in ("tpf", "fasta"):
@@ -32,7 +34,7 @@ def inputs_for(bpt, tier):
     if tier == "thorough":
         for style in ("tpf",):
             for sc in pv.gen_scaffolds(style, "scaffold_1", 3, [e, 8 * e + 4], SEPS[:2]):
-                if sum(1 for r in sc[1] if r[0] == "F") == 3:
+                if sum(1 for r in sc[1] if r[0] == "F") == 3 and sc[1][0][4] == 1 and sc[1][0][3] - sc[1][0][2] > e:
                     out.append((sc,))
     for style in ("tpf", "fasta"):
         firsts = list(pv.gen_scaffolds(style, "scaffold_1", 1, [2 * e + 1, 8 * e + 4], SEPS[:1]))
@@ -123,15 +125,15 @@ class C02(Check):
                 continue
             two = len(inp) > 1
             chain = sum(1 for r in inp[0][1] if r[0] == "F") >= 4
-            for pieces in pv.pv_piece_lists(inp, bpt, max_cuts=1 if two else 2, max_pieces=3, margin=(e + 2) if (chain and not full) else (3 * e + 2)):
+            for pieces in pv.pv_piece_lists(inp, bpt, max_cuts=1 if two else 2, max_pieces=3, margin=(e + 2) if chain else (3 * e + 2)):
                 n = len(pieces)
-                arrs = pv.arrangements(n) if (n < 3 or full) else pv.arrangements_reduced(n)
+                arrs = pv.arrangements(n) if n < 3 else pv.arrangements_reduced(n)
                 if chain and not full:
                     arrs = [tuple(((i, 1),) for i in range(n)), (tuple((i, 1) for i in range(n)),), tuple(((i, -1 if i % 2 else 1),) for i in reversed(range(n)))]
                 for arr in arrs:
                     pats = pv.painted_patterns(len(arr), full=False)
-                    if not full and n == 3:
-                        if len(arr) == 2:
+                    if n == 3:
+                        if not full and len(arr) == 2:
                             continue  # quick: 3-piece scripts all separate or all in one scaffold
                         pats = pats[:2]
                     for painted in pats:
